@@ -4,7 +4,7 @@ Read with `ast` by pyvc (module pydsdl._spec_reader_model) and INLINED at the ca
 _namespace_reader that are under contract (registration: specs/c10_reader.py).  The `pyvc.ghost` functions are
 specification primitives of pyvc/ext_reader.py (each carries its assumption in its docstring); not importable natively.
 """
-from pyvc.ghost import cached_type, notify_visitors, handler_reports_under, read_outcome, sorted_enumeration
+from pyvc.ghost import file_path_of, cached_type, notify_visitors, handler_reports_under, read_outcome, sorted_enumeration
 
 
 def read(self, lookup_definitions, definition_visitors, print_output_handler, allow_unregulated_fixed_port_id, *,
@@ -14,6 +14,11 @@ def read(self, lookup_definitions, definition_visitors, print_output_handler, al
     handler_reports_under(print_output_handler, self.file_path)       # obligation of the CALLER (C17)
     notify_visitors(self, lookup_definitions, definition_visitors)    # on_definition(referrer, dependency) callbacks
     return read_outcome(self)                                         # any exception, or the composite (then cached)
+
+
+def file_path(self):
+    """DSDLFile.file_path: fixed for the definition object."""
+    return file_path_of(self)
 
 
 def composite_type(self):
